@@ -30,7 +30,7 @@ PROPS['C19'] = dict(
 )
 
 TREE_RULE = ('choice tape -> key-universe size in {4,8,12,16,32,64,128,256} and a history of <= 400 ops (search, insert x3, remove x2 of a present key, '
-             'duplicate insert of a resident key, bulk insert of 8..64 keys, manual link + insert_adjust) on one tree whose nodes are separate 0xCC-poisoned heap blocks; two builds: the default packed node layout and the unpacked one (A_SIZE_POINTER=1: separate parent and balance/colour members); after every call a full walk checks links, order, '
+             'duplicate insert of a resident key, bulk insert of 8..64 keys, manual link + insert_adjust) with a comparator whose style is fixed per history (-1/0/+1, key difference, x1000, INT_MIN/INT_MAX, asymmetric mixes: the contract is the sign) on one tree whose nodes are separate 0xCC-poisoned heap blocks; two builds: the default packed node layout and the unpacked one (A_SIZE_POINTER=1: separate parent and balance/colour members); one tape in 16 (rapidcheck processes) instead builds the minimal-node AVL shape of height 10..20 (143..28656 nodes, level by level) and removes keys at both ends, at the root and at random, with the full walk after each; after every call a full walk checks links, order, '
              'balance/colour invariants and identity against a std::map model; non-trivial = >= 8 successful inserts, >= 1 removal of a two-child node '
              'and >= 1 insert after a removal; distinct = hash of (universe, decoded op/key sequence)')
 TREE_ASSUME = COMMON_ASSUME + ['model: std::map<int, node*>; the walk reads the public node fields and decodes parent_ as documented in the header',
@@ -65,7 +65,7 @@ PROPS['C02'] = dict(
 PROPS['C03'] = dict(
     level='exploration',
     rule='(a) histories as for C01/C02 on both containers, with the full iterator battery (six traversals in both macro spellings, head/tail, next/prev inverses) after '
-         'mutating steps and a tear-down at the end whose start node (null, root or any element), interruption point and continuation mode come from the tape (nodes are freed when handed out); packed and unpacked node layouts; '
+         'mutating steps and a tear-down at the end whose start node (null, root or any element), interruption point and continuation mode come from the tape (nodes are freed when handed out); packed and unpacked node layouts; tall minimal shapes of height 8..14 with all traversals after every removal; '
          '(b) enumeration: every insertion order of n <= 6 (quick) / 8 (thorough) distinct keys, every ordered pair of removals, every tear interruption point; '
          'non-trivial = final tree with >= 5 nodes having a left-only and a right-only internal node; distinct = hash of the decoded history (a) / distinct tree shapes (b)',
     assumptions=TREE_ASSUME + ['reference traversals are recursive walks over the same links; link integrity itself is C01/C02'],
@@ -105,9 +105,9 @@ PROPS['C05'] = dict(
     level='exploration',
     rule='three executors. list: pool of 24 nodes, two rings, <= 300 ops (add_next/add_prev/add_node at any ring position, del_node/del_next/del_prev of real nodes, rot_next/rot_prev on any '
          'length incl. 0/1, mov_next/mov_prev of a non-empty ring followed by a_list_init, set_node, swap_node of distinct non-adjacent nodes in one ring or across rings, section '
-         'del_/add_/set_/swap_ on disjoint non-adjacent sections); slist: add_head/add_tail/add/del/del_head/rot/mov on two lists incl. empty and one-element lists; que: two queues, '
+         'del_/add_/set_/swap_ on disjoint non-adjacent sections); slist: add_head/add_tail/add/del/del_head/rot/mov on two lists incl. empty and one-element lists; removal-safe iteration macros of both list kinds (all spellings) with deletions selected by a mask from inside the loop body; que: two queues, '
          'element sizes {0->1,1,2,3,4,8,12,16}, push/pull either end, insert/remove with indices up to SIZE_MAX, at() for negative/huge indices, push_sort, push+sort_fore/sort_back on sorted '
-         'contents, element swap (adjacent, non-adjacent or identity), whole-queue swap, drop, setz, foreach (macro forms), bulk push/pull of 8..80 elements, and a fill-to-K / pull-a-few / drop scenario with K around the pool thresholds 8..65; after every op both rings are walked forwards and backwards against the model, element '
+         'contents, element swap (adjacent, non-adjacent or identity), whole-queue swap, drop, setz, foreach (macro forms), bulk push/pull of 8..80 elements, comparator styles as for the trees, and a fill-to-K / pull-a-few / drop scenario with K around the pool thresholds 8..65; after every op both rings are walked forwards and backwards against the model, element '
          'addresses must stay fixed and a pushed slot must not alias an enqueued element. non-trivial = list: a cross-ring swap or a section op; slist: a rot/mov on length <= 1 AND one on '
          'length >= 3; que: a pull followed by >= 2 pushes (recycling) or a whole-queue swap with a non-empty side. distinct = hash of the decoded op bytes and positions',
     assumptions=COMMON_ASSUME + ['preconditions respected by construction and counted under excluded_by_construction: swaps only on distinct non-adjacent nodes/sections, a_list_mov_* only from a non-empty ring '
@@ -127,7 +127,7 @@ PROPS['C06'] = dict(
     rule='choice tape -> <= 300 ops on two strings (heap or embedded objects): catc/catn/cats/cat and their non-terminating "_" forms with any byte values (NUL, >= 0x80) and lengths '
          'chosen to land 2/1/0 short of and 1 past the current capacity, catf from 11 typed templates (%s with a string sized to fill the spare room exactly / one more, %.*s, %d, %5u, %x, %c, '
          '%%, %g, mixed) compared with snprintf on the same arguments, a_utf_catc over all six encoding lengths, getc/getn (with/without destination, counts up to SIZE_MAX), trim/ltrim/rtrim '
-         'with default white space and explicit sets (incl. NUL, high bytes, "every byte of the content"), setn/setn_ within capacity, setm (incl. reservations of 200..65536 bytes), exit (ownership hand-over, block checked and released), '
+         'with default white space and explicit sets (incl. NUL, high bytes, "every byte of the content"), setn/setn_ within capacity, setm (incl. reservations of 200..65536 bytes), index accessors at/at_/of, a_utf_len against a_utf_length, a_str_cmp_/cmpn on prefixes of the other string and of the string's own storage, exit (ownership hand-over, block checked and released), '
          'swap, dtor+ctor, cmp/cmpn/cmps; after every op len<=mem, content, and the NUL after the content (after terminating variants) are checked against std::string under ASan with an '
          'allocator ledger. non-trivial = history with a reallocation of a non-empty string, a formatted append that exactly fills the spare capacity, or a trim that empties a string of >= 2 bytes; '
          'distinct = hash of the decoded op bytes',
@@ -165,7 +165,7 @@ PROPS['C07'] = dict(
 PROPS['C09'] = dict(
     level='exploration',
     rule='three builds: a_real = double, float, long double (A_SIZE_REAL = 8 / 4 / 16). choice tape -> up to 8 sub-cases: kernel in {mulmm, mulTm, mulmT, mulTT, T2 (+back), T1 (vs T2, twice), eye1/eye2, tri1/tri2, diag+diag1, diag2, triL/triL1/triL2/triU/triU1/triU2}, '
-         'row/col/inner dimensions independent in 1..9 (thorough: 1..20), one case in 16 with dimensions from {15..140}, contents from three classes (small integers, integers with signed zeros, reals with exponents 2^-8..2^8, in a quarter of the fills stretched to 2^+-24 / 2^+-400 / 2^+-7200 by type - beyond the double range in the long double build); inputs and outputs are '
+         'row/col/inner dimensions independent in 1..9 (thorough: 1..20), one case in 16 with dimensions from {15..140}, contents from three classes (small integers, integers with signed zeros, reals with exponents 2^-8..2^8, in a quarter of the fills stretched to 2^+-24 / 2^+-400 / 2^+-7200 by type - beyond the double range in the long double build); in a quarter of the product cases the two read-only operands share storage (the smaller is the leading part of the larger); inputs and outputs are '
          'exact-size heap blocks under ASan, outputs pre-filled with a signalling value so that unwritten cells are detected; products compared exactly with a long double triple loop for the integer classes and within '
          '4*(k+1)*u*sum|x||y| for reals; all other kernels compared bitwise with the pattern written from the header text. non-trivial = rows != cols for a rectangular kernel, three pairwise different '
          'dimensions for a product, or T1 on n >= 3; distinct = hash of (kernel, dimensions, contents)',
@@ -186,7 +186,7 @@ PROPS['C08'] = dict(
     rule='three builds of the library and executor: a_real = double, float and long double (A_SIZE_REAL = 8 / 4 / 16), unit roundoff u of that type in every bound. choice tape -> factorisation (PLU / LDL^T / LL^T), order n in 1..12 (thorough 1..32), occasionally 13..65 pattern-filled, matrix class: small integers, reals, rows/cols scaled by 2^+-k, near-singular rank-one + 2^-30 noise, '
          'pivot exchange forced at the last step, Hilbert/Vandermonde-like, global scale 2^s (|s| <= 30 / 300 / 4800 for float / double / long double builds, the last reaching beyond the double range), wide-exponent reals, strictly diagonally dominant integers (must succeed), and exactly singular classes '
          'whose elimination is exact: zero column, bit-identical rows, zero row (PLU); integer unit-L * D * L^T with a zero in D (LDL^T); integer L*L^T with a zero diagonal entry or a pivot made negative (LL^T); '
-         'symmetric inputs get their strict upper triangle poisoned in half of the cases (the code reads only the lower triangle). Oracle in long double: permutation + parity = sign, |L_ij| <= 1, positive Cholesky diagonal, '
+         'badly scaled block-diagonal classes (uncoupled blocks multiplied by 4^S, S over +-505 / +-57 / +-8185 by type: pivots from ~min to ~max in one matrix; solve and inverse are skipped there), strided triangular solves (lower_/upper_) on one column of an n x n block; symmetric inputs get their strict upper triangle poisoned in half of the cases (the code reads only the lower triangle). Oracle in long double: permutation + parity = sign, |L_ij| <= 1, positive Cholesky diagonal, '
          'componentwise |PA-LU| <= 4*gamma_n|L||U| (gamma_2n for LDL^T, gamma_{n+1} for LL^T, lower triangle), solve / inv / inv_ residuals |b-Ax| <= 4*gamma_{3n(+2)}*(|L||D||L^T|)|x|, det/lndet/sgndet against '
          'products/sums of the stored pivots and against each other, extraction helpers exact, singular classes must fail and dominant classes must succeed. non-trivial = n >= 4 and (a row exchange happened, or a '
          'non-default symmetric class, or a singular class that was reported); distinct = hash of (kind, n, matrix entries)',
@@ -208,7 +208,7 @@ PROPS['C08'] = dict(
 
 PROPS['C17'] = dict(
     level='exploration',
-    rule='choice tape -> CRC case (width 8/16/32/64, bit order, polynomial from published ones or arbitrary incl. top bit set, arbitrary initial value, message of 0..300 arbitrary bytes, two split points) or hash case '
+    rule='choice tape -> CRC case (width 8/16/32/64, bit order, polynomial from published ones or arbitrary incl. top bit set, arbitrary initial value, message of 0..300 bytes: digits, arbitrary, high bytes, text-like, or records of 2/4/8-byte machine words in either byte order from a boundary pool with copy / negation / complement / +1 of the predecessor and zero runs; two split points) or hash case '
          '(bkdr/sdbm, initial value, message, split point). CRC oracle: all 256 table entries and the value equal bit-by-bit polynomial division in the same bit order (reference written from the definition, own bit '
          'reflection), three-piece feeding with carried value = one shot, and the opposite bit order on bit-reflected data/value gives the bit-reflected result. Hash oracle: multiply-add definition in 32-bit arithmetic, '
          'hash(ab,v) = hash(b, hash(a,v)), NUL-terminated form = length form on the prefix before the first NUL, mixed feeding. Messages live in exact-size heap blocks (ASan). Enumeration: one message of 2^32 + d bytes per routine (7 CRC updates, 4 hash forms; a 2 MiB block of non-zero bytes mapped 2049 times), at once against three pieces shorter than 2^32. non-trivial = message >= 2 bytes containing '
@@ -228,7 +228,7 @@ PROPS['C18'] = dict(
          'reference encoder written from the bit layout, decode(encode(c)) = (same length, c) with and without value output, every proper prefix fails; encode/decode buffers end flush against a PROT_NONE page. '
          '(b) choice tapes: code points near boundaries, arbitrary byte strings of 0..16 bytes (lead/continuation/NUL dictionary) with an independently chosen stated length in an exact-size heap block (ASan): result <= stated '
          'length and <= 6, equal with and without value output, r >= 2 only if the lead announces r and bytes 1..r-1 are continuation bytes and the value equals the bit layout, r = 1 only for a non-NUL byte below 0xC0, '
-         'complete well-formed sequences are not rejected; a_utf_length = number / total length of successive successful decodes; well-formed strings: both counters = number of code points; texts of up to 256 mostly-ASCII code points with embedded NULs before the stated end and random cuts: a_utf_length = successive decodes. '
+         'complete well-formed sequences are not rejected; a_utf_length = number / total length of successive successful decodes; well-formed strings: both counters = number of code points; texts of up to 256 mostly-ASCII code points with embedded NULs before the stated end and random cuts: a_utf_length = successive decodes; a string object built with a_utf_catc and cut back by 0..6 bytes through the non-terminating interface: a_utf_len = a_utf_length on an exact-size copy of the first a_str_len bytes. '
          'non-trivial = multi-byte code point or input starting with a byte >= 0x80; distinct = code points (enumerated, distinct by construction) + hash of decoded tape cases',
     assumptions=COMMON_ASSUME + ['a stray continuation byte decoding as a 1-byte character is not judged: the statement only constrains multi-byte acceptance',
                                  'a_utf_length_ (unchecked counter) is only required to be memory-safe on arbitrary input and exact on well-formed input'],
@@ -266,7 +266,7 @@ PROPS['C16'] = dict(
 PROPS['C15'] = dict(
     level='exploration',
     rule='two builds: a_real = double and float (u of the type in every bound). choice tape -> cubic/quintic/septic trajectory (duration 2^k, k in -10..10, or log-uniform real in [1e-3,1e3]; boundary values integers |v|<=1000 (all derivatives non-zero in 3/4 of the cases) or reals '
-         '2^-10..2^10) or a polynomial (n in 0..13 coefficients, integer or real, evaluation point). Oracle in exact rational arithmetic (GMP mpq, doubles convert exactly): pos(0)=p0 and vel(0)=v0 exactly, acc(0)/jer(0) '
+         '2^-10..2^10; one case in four is a nearly degenerate request: the boundary data of a motion of degree <= 3 with one datum moved by a relative 1e-1..1e-15 or not at all) or a polynomial (n in 0..13 coefficients, integer or real, evaluation point). Oracle in exact rational arithmetic (GMP mpq, doubles convert exactly): pos(0)=p0 and vel(0)=v0 exactly, acc(0)/jer(0) '
          'within 2 ulp; stored coefficients against the exactly solved boundary-value problem and end values of the stored polynomial against the requested ones within 16384*u*falling(deg,k)*S/T^k (S = sum of |boundary data| in position units); '
          'accessor outputs = exact derivative coefficients of the stored polynomial (2 ulp), vel/acc/jer(x) = exact derivatives of the stored position polynomial within the Horner bound at 4 query times (inside, at and outside [0,T]); '
          'the C++ member gen/pos/vel/acc/jer/c0..c3 of the three structures give bit-identical coefficients and values; a_poly_eval/evar = exact ascending/descending value within the Horner bound, n = 0 gives 0, evar(swap(a)) = eval(a) and swap twice = identity bit for bit. '
@@ -420,7 +420,7 @@ PROPS['C10'] = dict(
     rule='one executor binary per build configuration: a subset of the 23 A_HAVE_* switches (each function libm-backed or fallback) x real type (double, float), passed as -D flags to the unmodified sources; quick: all-on, all-off and two '
          'seeded random subsets for both types; thorough: all-on, all-off, the 23 single-off, the 23 single-on and 40 seeded random subsets for both types. Each tape yields up to 6 sub-cases over 58 complex operations (field arithmetic incl. '
          'real/imaginary scalar and in-place forms, inv, conj, neg, polar, abs/abs2/logabs/arg, sqrt, pow, pow_real, exp, log, log2, log10, logb, six trigonometric, six inverse, six hyperbolic, six inverse hyperbolic), 7 real-argument variants '
-         'and the inverse pairs (mul/div by the same real, imaginary and complex operand, exp(log z), log(exp z)). Arguments: modulus log-uniform over 2^-27..2^27 (2^-26..2^26 for float) or from a dictionary of formula-switch values +-4 ulp, or up to 2^+-1000 for operations whose true result stays representable; for the inverse families one case in five is constructed on the region boundaries of the usual asin/acos algorithm (a = (|z+1|+|z-1|)/2 = 1.5, |Re z|/a = 0.6417, |Re z| = 1) and at their pairwise intersections within 1e-6..1e-16, mapped through the reductions of asinh/acsc/asec/acsch/asech; angle '
+         'and the inverse pairs (mul/div by the same real, imaginary and complex operand, exp(log z), log(exp z)). Arguments: modulus log-uniform over 2^-27..2^27 (2^-26..2^26 for float) or from a dictionary of formula-switch values +-4 ulp, or up to 2^+-1000 for operations whose true result stays representable; for the inverse families one case in five is constructed on the region boundaries of the usual asin/acos algorithm (a = (|z+1|+|z-1|)/2 = 1.5, |Re z|/a = 0.6417, |Re z| = 1) and at their pairwise intersections within 1e-6..1e-16, mapped through the reductions of asinh/acsc/asec/acsch/asech; linked sub-cases call the previous two-operand function again with its second operand mapped through a one-operand library function (results inside the ordinary modulus window); angle '
          'class = interior of each quadrant, near an axis (relative distance 1e-6..1e-3), or exactly on an axis; points closer than 2e-6*|z| to a branch cut of the function are moved off the cut (counted), poles/overflows of the true value are skipped (counted). '
          'Oracle: glibc long double complex functions (principal values, ISO C Annex G); accept |got-ref| <= K*u*(|ref| + kappa), kappa = max over directions {1, i} (and the second operand) of |f(z+eps|z|d)-f(z)|/eps with eps = 2^-30, evaluated by the '
          'same reference. non-trivial = z off both axes with modulus outside [0.5, 2] or within 1e-3 of an axis, every real-argument and pair case; distinct = (configuration, function, argument bits)',
